@@ -1,0 +1,39 @@
+//! Verification hooks for the k-means helpers (compiled only with `--cfg linfa_verif`).
+//!
+//! Thin read-only wrappers; nothing here is reachable in a normal build.  The module is mounted
+//! as a child of `k_means::algorithm` so that it can see the private helpers of that file.
+use super::{closest_centroid, compute_centroids};
+use crate::KMeansInit;
+use linfa::Float;
+use linfa_nn::distance::Distance;
+use ndarray::{Array1, Array2, ArrayView1, ArrayView2};
+use ndarray_rand::rand::Rng;
+
+/// `closest_centroid(dist_fn, centroids, observation)`
+pub fn closest_centroid_of<F: Float, D: Distance<F>>(
+    dist_fn: &D,
+    centroids: &Array2<F>,
+    observation: ArrayView1<F>,
+) -> (usize, F) {
+    closest_centroid(dist_fn, centroids, &observation)
+}
+
+/// `compute_centroids(old_centroids, observations, cluster_memberships)`
+pub fn compute_centroids_of<F: Float>(
+    old_centroids: &Array2<F>,
+    observations: &Array2<F>,
+    cluster_memberships: &Array1<usize>,
+) -> Array2<F> {
+    compute_centroids(old_centroids, observations, cluster_memberships)
+}
+
+/// `KMeansInit::run(dist_fn, n_clusters, observations, rng)`
+pub fn init_run<F: Float, R: Rng, D: Distance<F>>(
+    init: &KMeansInit<F>,
+    dist_fn: &D,
+    n_clusters: usize,
+    observations: ArrayView2<F>,
+    rng: &mut R,
+) -> Array2<F> {
+    init.run(dist_fn, n_clusters, observations, rng)
+}
